@@ -356,6 +356,24 @@ fn handle_run(req: &Request, resp: &mut Response) -> bool {
                     let sref = vm.new_gc_obj_string(text);
                     vm.set_global("main", name, Value::ObjString(sref));
                     Ok(())
+                } else if let Some(text) = rest.strip_prefix("run_in:") {
+                    // "module:source": run a program under a module name of the host's choosing, as
+                    // `interpret(vm, source, Some(module))` does; what it prints goes to the next result
+                    let (module, src) = text.split_once(':').ok_or("module:source expected")?;
+                    OUTPUT.with(|o| o.borrow_mut().clear());
+                    match vm::interpret(&mut vm, src.to_string(), Some(module)) {
+                        Ok(_) => Ok(()),
+                        Err(e) => Err(format!("{}", e.messages().get(0).cloned().unwrap_or_default())),
+                    }
+                } else if let Some(text) = rest.strip_prefix("show_global:") {
+                    // "module:name": what the host sees when it reads that global
+                    let (module, name) = text.split_once(':').ok_or("module:name expected")?;
+                    let shown = match vm.global(module, name) {
+                        Some(v) => format!("{}", v),
+                        None => "<no such global>".to_string(),
+                    };
+                    OUTPUT.with(|o| o.borrow_mut().push(shown));
+                    Ok(())
                 } else {
                     Err(format!("unknown host step {}", rest))
                 }
@@ -366,7 +384,8 @@ fn handle_run(req: &Request, resp: &mut Response) -> bool {
                 Err(_) => Outcome::Panic { msg: PANIC_MSG.with(|p| p.borrow_mut().take()).unwrap_or_default() },
             };
             let is_panic = matches!(outcome, Outcome::Panic { .. });
-            resp.results.push(SnippetResult { out: vec![], outcome });
+            let out = if rest.starts_with("run_in:") || rest.starts_with("show_global:") { OUTPUT.with(|o| std::mem::take(&mut *o.borrow_mut())) } else { vec![] };
+            resp.results.push(SnippetResult { out, outcome });
             if is_panic {
                 panicked = true;
                 break;
